@@ -41,6 +41,39 @@ def esc_stream(table, tier, rng, specials, extra=""):
                   describe="escape.%s / html.EscapeString on all strings <= %d over the table's special characters and images (%d cases), every code point below U+0300 (all code points in steps of 7 in the thorough tier), random strings" % (table, T(tier, 3, 4), exh))
 
 
+def umacro_docs():
+    bodies = [".Sm \\$1 by \\$2", ".Sm also \\$@", "x \\$@ y", ".Sm \\$3", "t \\$[o] \\$?[f]", ".Sm a \\$1", ".P \\$@", ".Sm \\$2\\$1 \\$@"]
+    calls = [".m", ".m a", ".m a b", ".m a b c d", ".m -f a", ".m -o v a b", ".m \"\" b"]
+    docs = []
+    for b1 in bodies:
+        for b2 in [None] + bodies:
+            body = [b1] + ([b2] if b2 else [])
+            for c in calls:
+                docs.append([".#de m"] + body + [".#.", c, "after"])
+    return docs
+
+
+TEX_SPECIALS = ["\\e", "{", "}", "$", "&", "#", "^", "_", "%", "~", "\xa0"]
+TEXT_POSITIONS = ["%s", "x %s y", ".Sm %s", ".Sm a %s", ".Bm\n%s\n.Em", ".Ch %s", ".Sh %s\n.Tc", ".P %s", ".Bl\n.It %s\n.El", ".Bl -t desc\n.It %s\nv\n.El",
+                  ".Bl -t table %s\n.It %s\n.Ta %s\n.El\n.Tc -lot", ".Bl -t verse %s\n.It %s\n.El", ".Lk http://a %s", ".Im i.png %s\n.Tc -lof",
+                  ".Sm -id %s w", ".Bm -id %s\nt\n.Em", ".Bd -id %s\nt\n.Ed", ".Ch -id %s T\n.Sx %s", ".Bl -id %s\n.It a\n.El", ".D\n%s", ".#dv v %s\n\\*[v]", ".Lk %s", ".Lk %s l", ".Im -link %s i.png"]
+
+
+def position_docs(specials, n, positions=TEXT_POSITIONS):
+    def quote(a):
+        return '"' + a.replace('"', '""') + '"'
+    out = []
+    for a in gen.all_strings(specials, n, 1):
+        for tmpl in positions:
+            lines = []
+            for line in tmpl.split("\n"):
+                if "%s" in line:
+                    line = line.replace("%s", quote(a)) if line.startswith(".") else line.replace("%s", ("\\&" if a.startswith(".") else "") + a)
+                lines.append(line)
+            out.append("\n".join(lines) + "\n")
+    return out
+
+
 class C04(E2EProp):
     id = "C04"
     cone = ["Properties/C04.vo"]
@@ -52,7 +85,9 @@ class C04(E2EProp):
                    "processor + LaTeX exporter = Model/Loop.compile_source (stream S-e2e-latex)"]
 
     def plan(self, tier, rng):
-        return [("S-e2e-latex", fam_cases("l0", ALLFAM, T(tier, 3, 4), rng, 2, T(tier, 1500, 20000)), "LaTeX fragments: all sequences <= %d over 10 family alphabets, skeletons, random" % T(tier, 3, 4))]
+        pos = [e2e.case_of("l0", d) for d in position_docs(TEX_SPECIALS, T(tier, 1, 2))] + [e2e.case_of("l0", d) for d in position_docs(["a%_b", "x#y", "50%_off", "{}", "\\e\\e"], 1)]
+        return [("S-e2e-latex", fam_cases("l0", ALLFAM, T(tier, 3, 4), rng, 2, T(tier, 1500, 20000)), "LaTeX fragments: all sequences <= %d over 10 family alphabets, skeletons, random" % T(tier, 3, 4)),
+                ("S-e2e-latex-positions", pos, "TeX-special strings <= %d in %d text-bearing positions (text, titles, items, cells, captions, labels, ids, urls)" % (T(tier, 1, 2), len(TEXT_POSITIONS)))]
 
     def streams(self, tier, rng):
         return [esc_stream("latex", tier, rng, "\\{}$&#^_%~[]\xa0")] + super().streams(tier, rng)
@@ -90,11 +125,24 @@ class C15(E2EProp):
                     pos.append(e2e.case_of("m0", (tmpl % ('"' + a2 + '"')) + "\n"))
                 else:
                     pos.append(e2e.case_of("m0", (tmpl % a) + "\n"))
+        pos += [e2e.case_of("m0", d) for d in position_docs([".", "'", "\\e", "\"", "%", ":"], T(tier, 2, 3), [".Lk %s", ".Lk %s l", ".Sx %s", ".Sm -id %s w", ".Ch -id %s T", ".Im %s", ".Im %s cap", "%s"])]
         return [("S-e2e-mom", fam_cases("m0", ALLFAM, T(tier, 3, 4), rng, 2, T(tier, 1500, 20000)) + pos,
                  "mom fragments: family sequences, skeletons, random; roff-significant strings <= %d in 9 text-bearing positions" % T(tier, 2, 3))]
 
     def streams(self, tier, rng):
         return [esc_stream("roff", tier, rng, ".'\\\"\xa0…")] + super().streams(tier, rng)
+
+
+def resolve_escapes(a):
+    out, i = "", 0
+    while i < len(a):
+        if a[i] == "\\" and i + 1 < len(a):
+            out += {"e": "\\", "&": "", "~": "\xa0"}.get(a[i + 1], "")
+            i += 2
+        else:
+            out += a[i]
+            i += 1
+    return out
 
 
 class C03(E2EProp):
@@ -104,46 +152,97 @@ class C03(E2EProp):
     theorems = ["C03_escape_decodable", "C03_markup_characters_escaped", "C03_typography_only_inserts_fr", "C03_typography_only_inserts_en"]
     partial = ["C03_no_raw / C03_once_in_order on whole documents (every text-bearing position is rendered through the escaper, once, in order): tied by the S-e2e position sweep, searched by the text oracle; proof pending"]
     assumptions = ["html.EscapeString = Repl.enc html_table, the table probed from the toolchain over every code point (S-esc-html)", "XHTML exporter = Model/Xhtml.v (S-e2e position sweep)"]
-    SPECIALS = ["<", ">", "&", "\"", "'", "\\e", "é", "\U0001F600", " "]
+    SPECIALS = ["<", ">", "&", "\"", "'", "\\e", "é", "\U0001F600", "\xa0"]
     POSITIONS = ["%s", "x %s y", ".Sm %s", ".Sm a %s", ".Bm\n%s\n.Em", ".Ch %s", ".Sh %s\n.Tc", ".P %s", ".It %s", ".Bl\n.It %s\n.El", ".Bl -t desc\n.It %s\nv\n.El",
-                 ".Bl -t table %s\n.It %s\n.Ta %s\n.El\n.Tc -lot", ".Bl -t verse %s\n.It %s\n.El", ".Lk http://a %s", ".Im -alt %s i.png", ".Im i.png %s\n.Tc -lof",
-                 ".Sm -id %s w", ".D\n%s", ".#dv v %s\n\\*[v]", ".X set document-title %s\n.Ch c\n.Tc", ".Bd -id %s\nt\n.Ed"]
+                 ".Bl -t table %s\n.It %s\n.Ta %s\n.El", ".Bl -t verse %s\n.It %s\n.El", ".Lk http://a %s", ".Im -alt %s i.png", ".Im i.png %s",
+                 ".Sm -id %s w", ".D\n%s", ".#dv v %s\n\\*[v]", ".X set document-title %s\n.Ch c\n.Tc", ".Bd -id %s\nt\n.Ed", ".Sx %s", ".Sx lab %s"]
 
     @staticmethod
-    def quote(a):
-        return '"' + a.replace('"', '""') + '"'
-
-    @staticmethod
-    def oracle(case, go):
-        # every piece of text put in must be found, unescaped, in the character data / attribute values of the output
-        import html
-        files = oracles.all_files(go)
-        if files is None or not case.startswith("x0"):
+    def events(text):
+        """(tag skeleton with attribute names, character data and attribute values) of a fragment; None if not well formed"""
+        import xml.parsers.expat
+        ev = []
+        p = xml.parsers.expat.ParserCreate()
+        p.StartElementHandler = lambda n, a: ev.append(("S", n, tuple(sorted(a.items()))))
+        p.EndElementHandler = lambda n: ev.append(("E", n))
+        p.CharacterDataHandler = lambda d: ev.append(("T", d))
+        p.buffer_text = True
+        try:
+            p.Parse(("<r>" + text + "</r>").encode("utf-8"), True)
+        except xml.parsers.expat.ExpatError:
             return None
-        a = e2e.parse_go(go)
-        m = re.search(r"#MARK (\S+)", case)
-        return None
+        return ev
 
     def plan(self, tier, rng):
-        cases = []
+        cases, self.meta = [], {}
         n = T(tier, 2, 3)
-        for a in gen.all_strings(self.SPECIALS, n, 1):
+        for a in list(gen.all_strings(self.SPECIALS, n, 1)) + ["Sm", "Bm", "Em", "\\&Sm x", "a\\&'b", "\\&'-x\\&'"]:
             for tmpl in self.POSITIONS:
-                out = []
-                for line in tmpl.split("\n"):
-                    if "%s" in line:
-                        # in a macro line the string is written as one quoted argument; in a text line as it is
-                        # (a text line must not begin with a dot)
-                        line = line.replace("%s", self.quote(a)) if line.startswith(".") else line.replace("%s", ("\\&" if a.startswith(".") else "") + a)
-                    out.append(line)
-                doc = "\n".join(out)
-                for lang in (("", ".X set lang fr\n", ".X set lang xx\n") if len(a.replace("\\e", "x")) <= 1 else ("",)):
-                    cases.append(e2e.case_of("x0", lang + doc + "\n"))
+                import unicodedata
+                res = resolve_escapes(a)
+                body = res
+                # a last argument made of punctuation is a closing delimiter, kept outside the markup: the neutral word must be one too
+                neutral = "\u00a7" if body and all(unicodedata.category(ch).startswith("P") for ch in body) and not a.startswith("\\&") else "Q"
+                for lang in (("", ".X set lang fr\n", ".X set lang xx\n") if len(a) <= 4 else ("",)):
+                    pair = []
+                    for val in (a, neutral):
+                        out = []
+                        for line in tmpl.split("\n"):
+                            if "%s" in line:
+                                line = line.replace("%s", '"' + val.replace('"', '""') + '"') if line.startswith(".") else line.replace("%s", val)
+                            out.append(line)
+                        pair.append(e2e.case_of("x0", lang + "\n".join(out) + "\n"))
+                    exp = resolve_escapes(a)
+                    if tmpl.startswith(".") and a in ("Sm", "Bm", "Em") and "%s" in tmpl.split("\n")[0] and not re.search(r"-(id|alt) %s", tmpl):
+                        continue      # an unescaped Sm/Bm/Em argument is an inline macro by design
+                    self.meta[pair[0]] = (pair[1], exp, neutral)
+                    cases += pair
         return [("S-e2e-xhtml-positions", cases + fam_cases("x0", ["misc", "title", "tags"], T(tier, 2, 3), rng, None, T(tier, 500, 5000)),
-                 "XHTML: every string <= %d over {< > & dq sq backslash e-acute astral NBSP} in %d text-bearing positions (lang en/fr/other for single characters); family sequences; random" % (n, len(self.POSITIONS)))]
+                 "XHTML: every string <= %d over {< > & dq sq backslash e-acute astral NBSP} (and Sm/Bm/Em, escaped apostrophes) in %d text-bearing positions, lang en/fr/other, each paired with the same document holding a neutral word; family sequences; random" % (n, len(self.POSITIONS)))]
 
     def streams(self, tier, rng):
-        return [esc_stream("html", tier, rng, "<>&\"'")] + super().streams(tier, rng)
+        sts = [esc_stream("html", tier, rng, "<>&\"'")] + C20().streams(tier, rng) + super().streams(tier, rng)
+        prop = self
+        st = sts[-1]
+        orig_run = st.run
+
+        def run():
+            orig_run()
+            idx = {c.split(" | ")[0]: i for i, c in enumerate(st.cases)}
+            for ca, (cb, exp, neutral) in prop.meta.items():
+                i, j = idx.get(ca), idx.get(cb)
+                if i is None or j is None:
+                    continue
+                a, b = e2e.parse_go(st.go[i]), e2e.parse_go(st.go[j])
+                if a[0] != "ok" or b[0] != "ok":
+                    if a[0] != b[0]:
+                        st.oracle_hits.append((i, "exit class differs from the neutral-word document"))
+                    continue
+                if [d for d in a[2] if not e2e.SCANNER_DIAG.match(d)] != [d for d in b[2] if not e2e.SCANNER_DIAG.match(d)] and len(a[2]) != len(b[2]):
+                    continue
+                ea, eb = prop.events(e2e.dec(a[1].get("", ""))), prop.events(e2e.dec(b[1].get("", "")))
+                if eb is None:
+                    continue
+                if ea is None:
+                    st.oracle_hits.append((i, "text %r makes the output malformed (the same document with a neutral word is well formed)" % exp))
+                    continue
+                curl = lambda t: t.replace("\u2019", "'")
+                want = curl(exp)
+
+                def norm(ev):
+                    out = []
+                    for e in ev:
+                        if e[0] == "T":
+                            out.append(("T", curl(e[1]).replace(want, neutral) if want else curl(e[1])))
+                        elif e[0] == "S":
+                            out.append(("S", e[1], tuple((k, curl(v).replace(want, neutral) if want else curl(v)) for k, v in e[2])))
+                        else:
+                            out.append(e)
+                    return out
+                if norm(ea) != norm(eb):
+                    st.oracle_hits.append((i, "the reader does not see the text %r as written: structure or character data differ from the neutral-word document" % exp))
+        st.run = run
+        return sts
 
 
 # =================================================================== processor-level properties
@@ -164,6 +263,8 @@ class C01(E2EProp):
             out.append(("S-e2e-" + fm, fam_cases(fm, ALLFAM, n if fm == "x0" else T(tier, 2, 3), rng, 2, T(tier, 800, 10000)), "fragment mode %s: family sequences, skeletons, random and perturbed nested documents" % fm))
         for fm in ("x1", "x2", "e3"):
             out.append(("S-e2e-" + fm, fam_cases(fm, ["head", "misc", "table"], 2, rng, None, T(tier, 300, 4000)), "mode %s: headers/images/tables sequences <= 2, random" % fm))
+        um = umacro_docs()
+        out.append(("S-e2e-usermacros", [e2e.case_of(fm, e2e.doc_of(d)) for fm in ("x0", "k0") for d in um], "user macros: 8 x 9 bodies using $N, $@, $[o], $?[f] x 7 invocations with 0-4 arguments and options"))
         return out
 
 
@@ -355,6 +456,13 @@ class C07(E2EProp):
             lay.append(e2e.case_of("x0", ".#de w\n" + d[0] + "\n.#.\nt\n.w\n" + d[1] + "\n"))
             lay.append(e2e.case_of("x0", "t\n.If inc.frundis\n" + d[1] + "\n", [("inc.frundis", "x\n" + d[0] + "\n")]))
             lay.append(e2e.case_of("l0", "t\n.If inc.frundis\n" + d[1] + "\n", [("inc.frundis", "x\n" + d[0] + "\n")]))
+        for s2 in itertools.product(self.OPEN[:5] + self.CLOSE[:5], repeat=1):
+            x = s2[0]
+            # wrapper calling another user macro before the offending line; macro defined in an included library file
+            lay.append(e2e.case_of("x0", ".#de inner\nin\n.#.\n.#de outer\n.inner\n" + x + "\n.#.\nt\n\n.outer\nend\n"))
+            lay.append(e2e.case_of("x0", ".#de inner\n" + x + "\n.#.\n.#de outer\nt\n.inner\n.#.\nt\n.outer\n.outer\n"))
+            lay.append(e2e.case_of("x0", "t\n.If lib.frundis\nu\n\n.cw\nv\n.cw\n", [("lib.frundis", ".\\\" library\n\n.#de cw\n" + x + "\n.#.\n")]))
+            lay.append(e2e.case_of("l0", "t\n.If lib.frundis\n.#de w2\n.cw\n" + x + "\n.#.\n.w2\n", [("lib/lib.frundis", ".#de cw\nz\n" + x + "\n.#.\n")], ["lib"]))
         return [("S-e2e-nesting", cases, "all sequences <= %d over 8 openers, 7 closers, 4 neutral lines (xhtml fragment)" % n),
                 ("S-e2e-layouts", lay, "pairs of openers/closers embedded in comments, continuation lines, empty control lines, user-macro wrappers and included files")]
 
@@ -494,12 +602,35 @@ class C09(PairProp):
     partial = ["C09_false / C09_true / C09_format: stated; tied by S-pairs and S-e2e; the false-branch lemma of the prototype is to be ported"]
     describe_pairs = "document with a conditional / format-restricted construct vs the document with it elided"
     BODY = [["t"], [".Sm w"], [".Bm", "x", ".Em"], [".#if 1", "n", ".#;"], [".#if 0", "n", ".#;"], [".Ch C"], [".#dv v z"], ["\\*[v]"], [".Bl", ".It a", ".El"], [".Lk u"], [".P"], [".#if -f latex", "q", ".#;", "r"]]
-    CTX = [([], []), ([".Bm", ".Lk u"], [".Em"]), (["a"], ["b"]), ([".#dv v 1", ".Bl", ".It"], [".El"]), ([".Bm"], [".Em", ".Sx x"])]
+    CTX = [([], []), ([".Bm", ".Lk u"], [".Em"]), (["a"], ["b"]), ([".#dv v 1", ".Bl", ".It"], [".El"]), ([".Bm"], [".Em", ".Sx x"]),
+           (["a", ".Bm"], ["x", ".Em"]), (["a", ".Ft -f xhtml,latex,mom,markdown,epub z"], ["More"]), (["a", ".Bf -f xhtml,latex,mom,markdown,epub", "r", ".Ef -ns"], ["More"]), (["a", ".Sm -ns w"], ["b"])]
 
     def pairs(self, tier, rng):
         ps = []
         conds_false = [".#if 0", ".#if \"\"", ".#if -not 1", ".#if -eq a b", ".#if -f nosuch", ".#if -not -eq a a", ".#if \\*[undef]"]
         conds_true = [".#if 1", ".#if x", ".#if -not 0", ".#if -eq a a", ".#if -not -f nosuch"]
+        # every combination of -not, -f (current targets / another), -eq (equal / different), string (true / false / none),
+        # with the truth value computed from the manual: all given sub-conditions must hold; -not negates the whole
+        allf = "xhtml,latex,mom,markdown,epub"
+        for neg in (False, True):
+            for f in (None, allf, "nosuch"):
+                for eq in (None, "a"):
+                    for arg in (None, "1", "0", "a", "b"):
+                        if eq is None and f is None and arg is None:
+                            continue
+                        if eq is not None and arg is None:
+                            continue
+                        val = True
+                        if f is not None:
+                            val = val and f == allf
+                        if eq is not None:
+                            val = val and (arg == eq)
+                        elif arg is not None:
+                            val = val and arg not in ("0", "")
+                        if neg:
+                            val = not val
+                        line = ".#if" + (" -not" if neg else "") + (" -f " + f if f else "") + (" -eq " + eq if eq else "") + (" " + arg if arg is not None else "")
+                        (conds_true if val else conds_false).append(line)
         for pre, post in self.CTX:
             for body in self.BODY:
                 for c in conds_false:
@@ -644,6 +775,10 @@ class C16(E2EProp):
             for cyc in (1, 2, 3):
                 files = [("f%d.frundis" % i, "in f%d\n.If f%d.frundis\n.If f%d.frundis\n" % (i, (i + 1) % cyc, (i + 1) % cyc)) for i in range(cyc)]
                 cases.append(e2e.case_of(fm, "start\n.If f0.frundis\nafter\n", files))
+            for sp in ("./f0.frundis", "sub/../f0.frundis", ".//f0.frundis"):
+                cases.append(e2e.case_of(fm, "start\n.If f0.frundis\nafter\n", [("f0.frundis", "in f0\n.If %s\n.If %s\n" % (sp, sp)), ("sub/x", "")]))
+                cases.append(e2e.case_of(fm, "start\n.If %s\nafter\n" % sp, [("f0.frundis", "in f0\n.If f1.frundis\n"), ("f1.frundis", "in f1\n.If %s\n" % sp), ("sub/x", "")]))
+            cases.append(e2e.case_of(fm, ".#de M\nXPN\n.If part.frundis\n.M\n.M\n.#.\nHEAD\n.M\nTAIL\n", [("part.frundis", "part\n.M\n")]))
             cases.append(e2e.case_of(fm, ".#de m\n.If f.frundis\n.#.\n.m\nafter\n", [("f.frundis", "x\n.m\n.m\n")]))
             cases.append(e2e.case_of(fm, ".If f.frundis\n.m\nafter\n", [("f.frundis", ".#de m\n.If f.frundis\n.m\n.#.\n")]))
             cases.append(e2e.case_of(fm, ".#de t\n.P a Sm \\$1\n.t \\$1\n.t \\$1\n.#.\n.t x\nafter\n"))
@@ -807,7 +942,7 @@ class C17(E2EProp):
     prop_file = "Properties/C17.v"
     theorems = ["C17_safe_component_stays_inside"]
     partial = ["C17_confined on the whole model (every created path lies under the output path): the model's file names are tied by S-e2e (the set of generated files is compared); created-paths outside the output directory are observed on the implementation by stream S-sandbox; proof pending"]
-    VALS = ["a", "..", "../x", "../../evil", "a/b", "/abs", ".", "x/../y", "a%2Fb", "..%2F..%2Fz", "é", ""]
+    VALS = ["a", "..", "../x", "../../evil", "../../../up3", "a/b", "/abs", ".", "x/../y", "a%2Fb", "..%2F..%2Fz", "..%2F..%2F..%2Fup3", "%2E%2E%2Fq", "é", ""]
 
     def plan(self, tier, rng):
         cases = []
